@@ -10,7 +10,8 @@
   tensor-lifting fact of DESIGN §7; the correspondence run additionally checks it against a dense simulator, n ≤ 5.)
 -/
 import GraphiqModel.Proofs.Tableau
-import GraphiqModel.Proofs.HilbertState
+import GraphiqModel.Proofs.HilbertMeasure
+import GraphiqModel.Proofs.HilbertKron
 namespace Graphiq.C07
 open Graphiq Graphiq.PRow Graphiq.Tab
 
@@ -406,5 +407,107 @@ example : circMat 2 [.H 0, .CNOT 0 1] * rho 2 (STab.zero 2) * (circMat 2 [.H 0, 
   exact h.trans e
 /-- an anticommuting pair: X₀ and the Y₀Y₁ row -/
 example : sp 2 (Xq 0) (bellYY.row 0) = true := by decide
+
+/-! ### Kronecker structure: the bit-string matrices are graphiq's `np.kron` chains -/
+
+/-- `pauliMat (n+1) p = pauliMat n p ⊗ σ(x_n, z_n)` entrywise, where `σ` is the table of 2×2 Pauli matrices
+    (`1`, `sigmax()`, `sigmay()`, `sigmaz()`); by induction `pauliMat n p = i^ip (-1)^r σ₀ ⊗ … ⊗ σ_{n-1}` with qubit 0 the
+    left-most (most significant) Kronecker factor, the convention of `get_one_qubit_gate` -/
+theorem pauli_matrix_is_kronecker_product (n : Nat) (p : PRow) (a b : Bits (n + 1)) :
+    pauliMat (n + 1) p a b = pauliMat n p (initB a) (initB b) * sigma (p.x n) (p.z n) (lastB a) (lastB b) ∧
+    sigma false false = 1 ∧ sigma true false = sigmaX ∧ sigma true true = sigmaY ∧ sigma false true = sigmaZ :=
+  ⟨pauliMat_succ n p a b, sigma_ff, sigma_tf, sigma_tt, sigma_ft⟩
+
+/-- `oneQ` is `get_one_qubit_gate`: the 2×2 matrix at its site, identity factors elsewhere (`1 ⊗ u` for the last
+    qubit, `(gate on the first n qubits) ⊗ 1` otherwise); `ctrlQ` is `get_two_qubit_controlled_gate`'s
+    `1 + (1 - Z_c)(u_t - 1)/2` -/
+theorem gate_matrices_are_kronecker_products (n q c t : Nat) (hq : q < n) (hc : c < n) (hct : c ≠ t)
+    (u : Matrix Bool Bool ℂ) (a b : Bits (n + 1)) :
+    oneQ (n + 1) n u a b = (1 : Matrix (Bits n) (Bits n) ℂ) (initB a) (initB b) * u (lastB a) (lastB b) ∧
+    oneQ (n + 1) q u a b = oneQ n q u (initB a) (initB b) * (1 : Matrix Bool Bool ℂ) (lastB a) (lastB b) ∧
+    ctrlQ n c t u = 1 + (1 / 2 : ℂ) • ((1 - pauliMat n (Zq c)) * oneQ n t (u - 1)) :=
+  ⟨oneQ_succ_last n u a b, oneQ_succ_lower n q hq u a b, ctrlQ_eq_graphiq n c t hc hct u⟩
+
+/-! ### the state of a valid Clifford tableau is a pure state; measurement is projection -/
+
+/-- the all-`+Z` tableau (`StabilizerTableau(n)`, the stabilizer half of `CliffordTableau(n)`) is `|0…0⟩⟨0…0|` -/
+theorem ket0_state_is_zero_ket (n : Nat) (a b : Bits n) :
+    rho n (STab.ofTab (Tab.ket0 n)) a b = if a = (fun _ => false) ∧ b = (fun _ => false) then 1 else 0 := by
+  rw [rho_ket0]; exact rho_zero n a b
+
+open scoped ComplexOrder in
+/-- **Pure state.**  For a valid Clifford tableau the stabilizer half defines a density matrix (`ρ ≥ 0`, `tr ρ = 1`)
+    that is a rank-one projector in the sense `ρ² = ρ = ρ†`, `tr ρ = 1` (graphiq's `is_pure`): the destabilizer rows
+    witness the independence of the generators. -/
+theorem stabilizer_state_is_pure (t : Tab) (hv : t.Valid) :
+    Matrix.trace (rho t.n (STab.ofTab t)) = 1 ∧
+    rho t.n (STab.ofTab t) * rho t.n (STab.ofTab t) = rho t.n (STab.ofTab t) ∧
+    (rho t.n (STab.ofTab t))ᴴ = rho t.n (STab.ofTab t) ∧
+    (rho t.n (STab.ofTab t)).PosSemidef :=
+  have hg := ofTab_good t hv
+  ⟨rho_ofTab_trace t hv, rho_idem _ hg, rho_hermitian _ hg,
+   posSemidef_of_projector _ (rho_idem _ hg) (rho_hermitian _ hg)⟩
+
+/-- the rows of a valid tableau are a symplectic basis: a Pauli commuting with all 2n rows is trivial -/
+theorem valid_rows_are_symplectic_basis (t : Tab) (hv : t.Valid) (m : PRow)
+    (h : ∀ i, i < 2 * t.n → sp t.n (t.row i) m = false) : ∀ j, j < t.n → m.x j = false ∧ m.z j = false :=
+  valid_nondegenerate t hv m h
+
+/-- **Completeness of the deterministic rule** (was cited mathematics): if no stabilizer row has an X on `q`, the
+    scratch row of `z_measurement_gate` is exactly `±Z_q` -/
+theorem deterministic_scratch_row_is_Zq (t : Tab) (hv : t.Valid) (q : Nat) (hq : q < t.n) (hp : t.pivot q = none) :
+    SameBits t.n (t.measScratch q) (Zq q) := measScratch_bits t hv q hq hp
+
+/-- **Random branch = projective measurement.**  Valid tableau with real stabilizer rows, some stabilizer row has an X
+    on `q`.  With `Π_o = (1 + (-1)^o Z_q)/2`: `Π_o ρ Π_o = ½ · ρ(new tableau)` for the tableau returned by
+    `z_measurement_gate` with outcome `o` — the update rule computes the post-measurement state, each outcome has
+    probability `tr(Π_o ρ Π_o) = ½`; the new tableau again has real stabilizer rows (and is valid, §2). -/
+theorem measurement_random_is_projection (t : Tab) (hv : t.Valid) (hr : t.StabReal) (q p : Nat) (o : Bool)
+    (hq : q < t.n) (hp : t.pivot q = some p) :
+    proj t.n (Zq q o) * rho t.n (STab.ofTab t) * proj t.n (Zq q o)
+      = (1 / 2 : ℂ) • rho t.n (STab.ofTab (t.zMeasure q o).1) ∧
+    Matrix.trace (proj t.n (Zq q o) * rho t.n (STab.ofTab t) * proj t.n (Zq q o)) = 1 / 2 ∧
+    (t.zMeasure q o).1.StabReal := by
+  obtain ⟨h1, h2, h3⟩ := pivot_spec t q p hp
+  have e : t.zMeasure q o = (t.measRandom q p o, o, p) := by simp [zMeasure, hp]
+  rw [e]
+  exact ⟨measRandom_state t hv hr q p o hq h1 h2 h3, measRandom_prob t hv hr q p o hq h1 h2 h3,
+    measRandom_stabReal t hv hr q p o h1 h2⟩
+
+/-- **Deterministic branch = projective measurement.**  Valid tableau with real stabilizer rows, no stabilizer row has an
+    X on `q`.  With `s` the outcome reported by `z_measurement_gate`: `Z_q ρ = (-1)^s ρ`, so `Π_s ρ Π_s = ρ`
+    (probability 1, state and tableau unchanged) and `Π_{¬s} ρ = 0`. -/
+theorem measurement_deterministic_is_projection (t : Tab) (hv : t.Valid) (hr : t.StabReal) (q : Nat) (o : Bool)
+    (hq : q < t.n) (hp : t.pivot q = none) :
+    (t.zMeasure q o).1 = t ∧
+    pauliMat t.n (Zq q (t.zMeasure q o).2.1) * rho t.n (STab.ofTab t) = rho t.n (STab.ofTab t) ∧
+    proj t.n (Zq q (t.zMeasure q o).2.1) * rho t.n (STab.ofTab t) * proj t.n (Zq q (t.zMeasure q o).2.1)
+      = rho t.n (STab.ofTab t) ∧
+    proj t.n (Zq q (!(t.zMeasure q o).2.1)) * rho t.n (STab.ofTab t) = 0 := by
+  have e : t.zMeasure q o = (t, (t.measScratch q).r, 0) := by simp [zMeasure, hp]
+  rw [e]
+  exact ⟨rfl, measDet_state t hv hr q hq hp⟩
+
+/-- reality of the stabilizer rows holds for `CliffordTableau(n)` and is kept by every gate -/
+theorem stabilizer_rows_stay_real (n : Nat) (t : Tab) (g : Gate) (hr : t.StabReal) :
+    (Tab.ket0 n).StabReal ∧ (t.map g.act).StabReal := ⟨ket0_stabReal n, gate_stabReal t g hr⟩
+
+/-! non-vacuity: the GHZ tableau `ghz3` of §5 (valid, signs −XXX, ZZI, −IZZ) -/
+
+theorem ghz3_stabReal : ghz3.StabReal := by
+  intro i h1 h2
+  have h1' : 3 ≤ i := h1
+  have h2' : i < 6 := h2
+  have : i = 3 ∨ i = 4 ∨ i = 5 := by omega
+  rcases this with rfl | rfl | rfl <;> rfl
+
+theorem ghz3_valid : ghz3.Valid := (isSymplectic_iff_valid ghz3).mp (by decide)
+
+/-- measuring qubit 0 of GHZ₃ is random (pivot = row 3): both outcomes have probability ½ -/
+example (o : Bool) : Matrix.trace (proj 3 (Zq 0 o) * rho 3 (STab.ofTab ghz3) * proj 3 (Zq 0 o)) = 1 / 2 :=
+  (measurement_random_is_projection ghz3 ghz3_valid ghz3_stabReal 0 3 o (by decide) (by decide)).2.1
+/-- after that measurement (outcome 1), measuring qubit 1 is deterministic -/
+example : ((ghz3.zMeasure 0 true).1.norm).pivot 1 = none ∧ ghz3.pivot 0 = some 3 := by decide
+example : Matrix.trace (rho 3 (STab.ofTab ghz3)) = 1 := (stabilizer_state_is_pure ghz3 ghz3_valid).1
 
 end Graphiq.C07
